@@ -974,6 +974,8 @@ fn panic_message(e: Box<dyn Any + Send>) -> String {
 
 thread_local! {
     pub static LAST_PANIC_LOC: std::cell::RefCell<Option<String>> = const { std::cell::RefCell::new(None) };
+    /// every panic seen on this thread (message at file:line)
+    pub static PANIC_LOG: std::cell::RefCell<Vec<String>> = const { std::cell::RefCell::new(Vec::new()) };
 }
 
 /// Install a silent panic hook that records the location in a thread-local.
@@ -983,7 +985,15 @@ pub fn install_panic_hook() {
             .location()
             .map(|l| format!("{}:{}", l.file(), l.line()))
             .unwrap_or_default();
-        LAST_PANIC_LOC.with(|c| *c.borrow_mut() = Some(loc));
+        let msg = if let Some(s) = info.payload().downcast_ref::<&str>() {
+            s.to_string()
+        } else if let Some(s) = info.payload().downcast_ref::<String>() {
+            s.clone()
+        } else {
+            "panic".to_string()
+        };
+        let _ = PANIC_LOG.try_with(|c| c.borrow_mut().push(format!("{msg} at {loc}")));
+        let _ = LAST_PANIC_LOC.try_with(|c| *c.borrow_mut() = Some(loc));
     }));
 }
 
